@@ -191,6 +191,11 @@ func (t *Token) validate() error {
 	if _, err := command.Parse(t.command.String()); err != nil {
 		errs = errors.Join(errs, fmt.Errorf("invalid command: %w", err))
 	}
+	if pol, err := t.policy.ToIPLD(); err != nil {
+		errs = errors.Join(errs, fmt.Errorf("invalid policy: %w", err))
+	} else if err := limits.ValidateIntegerBoundsIPLD(pol); err != nil {
+		errs = errors.Join(errs, fmt.Errorf("invalid policy: %w", err))
+	}
 
 	return errs
 }
